@@ -10,6 +10,7 @@ import (
 	"path/filepath"
 	"reflect"
 	"sort"
+	"strings"
 	"sync"
 	"sync/atomic"
 	"time"
@@ -379,8 +380,12 @@ func (r *refRun) watchOne(h *RHist, dir string) []E {
 		loader.RegisterHandlerType(config.START, handlers.NewStart(lg)), loader.RegisterAuthenticator(config.BCRYPT, bcrypt.New(lg, okSecret{})),
 		loader.RegisterAccounter(config.FILE, acc))
 	good0 := h.Docs[0].Parses && h.Docs[0].MinOK
+	// a refusal that comes from the machine, not from the document (inotify instances are a per-user resource and the
+	// repository's watcher never closes its own): recorded, not judged
+	envfail := err != nil && (strings.Contains(err.Error(), "too many open files") || strings.Contains(err.Error(), "failed to create file watcher") ||
+		strings.Contains(err.Error(), "failed watching config") || strings.Contains(err.Error(), "no space left"))
 	omu.Lock()
-	out = append(out, E{"e": "wstart", "ok": err == nil, "good": good0})
+	out = append(out, E{"e": "wstart", "ok": err == nil, "good": good0 && !envfail, "env": envfail})
 	omu.Unlock()
 	if err != nil {
 		return out
